@@ -107,6 +107,12 @@ VARIANT = [None]
 
 def variant(c):
     v = VARIANT[0]
+    if v == 'scrambled':
+        # users-first storage order of the gate map (as after parsing a text with forward references)
+        try:
+            return scramble_storage(c)
+        except Exception:  # noqa: BLE001
+            return c
     if v == 'deepcopy':
         import copy
 
@@ -329,6 +335,7 @@ DEEP_PATTERNS = {
     'or3': [('OR', 'p', 'x1', 'p'), ('XOR', 'x2', 'p', 'x1'), ('NOT', 'p')],
 }
 DEEP_LENGTHS = {'quick': (1200, 3000), 'thorough': (1200, 3000, 7000)}
+HUGE_LENGTH = 70000  # 1.5 MB of bench text, > 2^17 clauses, > 2^16 gates (operands-first storage only: reversing by renames is quadratic)
 
 
 def deep_chain_net(pattern, L, n_in=3, outputs='last-mid-x0'):
